@@ -921,6 +921,235 @@ theorem float_label_tenth_increasing :
       && (Float.ofInt 2 + Float.ofNat 9 * (0.1 : Float) < Float.ofInt 3 + Float.ofNat 0 * (0.1 : Float))) = true := by
   decide +kernel
 
+/-! ### wave 6 (1a): exactly which agents a step visits (iteration discipline: the live list object)
+
+`for agent in model.agents` walks the list object bound at loop entry by index; `create_agent` appends to that
+very object as long as `model.agents` still is it.  Ids are handed out consecutively, so the agents that join the
+walk are a *contiguous run of ids starting at the `next_agent_id` of loop entry*; when no callback deleted
+anybody (the object was never rebound) this run is everybody created in the loop. -/
+
+/-- invariant: everything walked or still to be walked = the list at loop entry followed by `k` consecutive fresh ids;
+while the object is still `model.agents`, these are all ids handed out since. -/
+structure WalkInv (l : LoopSt) (acc base0 : List Nat) (next0 k : Nat) : Prop where
+  shape : acc ++ l.todo = base0 ++ List.range' next0 k
+  upto : l.aliased = true → next0 + k = l.pop.next
+  mono : next0 + k ≤ l.pop.next
+
+theorem walkInv_act (l : LoopSt) (acc base0 : List Nat) (next0 k : Nat) (a : Act) (h : WalkInv l acc base0 next0 k) :
+    ∃ k', k ≤ k' ∧ WalkInv (loopAct l a) acc base0 next0 k' := by
+  cases a with
+  | delete ids =>
+    refine ⟨k, Nat.le_refl _, ⟨h.shape, ?_, ?_⟩⟩
+    · intro hal; simp [loopAct] at hal
+    · simpa [loopAct, Pop.delete] using h.mono
+  | create =>
+    by_cases hal : l.aliased = true
+    · refine ⟨k + 1, by omega, ⟨?_, ?_, ?_⟩⟩
+      · have hu := h.upto hal
+        simp only [loopAct, hal, if_true]
+        rw [← List.append_assoc, h.shape, List.append_assoc]
+        congr 1
+        rw [List.range'_concat, Nat.one_mul, hu]
+      · intro _; have := h.upto hal; simp [loopAct, Pop.create]; omega
+      · have := h.upto hal; simp [loopAct, Pop.create]; omega
+    · refine ⟨k, Nat.le_refl _, ⟨?_, ?_, ?_⟩⟩
+      · simpa [loopAct, hal] using h.shape
+      · intro h'; simp [loopAct] at h'; exact absurd h' hal
+      · have := h.mono; simp [loopAct, Pop.create]; omega
+
+theorem walkInv_foldl (acts : List Act) : ∀ (l : LoopSt) (acc base0 : List Nat) (next0 k : Nat),
+    WalkInv l acc base0 next0 k → ∃ k', k ≤ k' ∧ WalkInv (acts.foldl loopAct l) acc base0 next0 k' := by
+  induction acts with
+  | nil => intro l acc base0 next0 k h; exact ⟨k, Nat.le_refl _, h⟩
+  | cons a rest ih =>
+    intro l acc base0 next0 k h
+    obtain ⟨k1, hk1, h1⟩ := walkInv_act l acc base0 next0 k a h
+    obtain ⟨k2, hk2, h2⟩ := ih _ acc base0 next0 k1 h1
+    exact ⟨k2, by omega, h2⟩
+
+/-- **exact visit list.** A terminating agent loop visits the list at loop entry followed by `k` consecutive new ids
+`next0, next0+1, …`; if the list object was never rebound (final `aliased`), `k` is the number of all ids handed out
+during the loop. -/
+theorem agentLoop_exact (P : Prog) (r : Int) (s : Nat) : ∀ (fuel : Nat) (l : LoopSt) (acc base0 : List Nat) (next0 k : Nat),
+    WalkInv l acc base0 next0 k → (agentLoop P r s fuel l acc).2.2 = false →
+    ∃ k', k ≤ k' ∧ (agentLoop P r s fuel l acc).1 = base0 ++ List.range' next0 k' ∧
+      next0 + k' ≤ (agentLoop P r s fuel l acc).2.1.pop.next ∧
+      ((agentLoop P r s fuel l acc).2.1.aliased = true → next0 + k' = (agentLoop P r s fuel l acc).2.1.pop.next) := by
+  intro fuel
+  induction fuel with
+  | zero =>
+    intro l acc base0 next0 k h hs
+    have ht : l.todo = [] := by simpa [agentLoop] using hs
+    refine ⟨k, Nat.le_refl _, ?_, h.mono, h.upto⟩
+    simpa [agentLoop, ht] using h.shape
+  | succ f ih =>
+    intro l acc base0 next0 k h hs
+    unfold agentLoop at hs ⊢
+    split
+    · rename_i htodo
+      refine ⟨k, Nat.le_refl _, ?_, h.mono, h.upto⟩
+      simpa [htodo] using h.shape
+    · rename_i a rest htodo
+      simp only [htodo] at hs
+      have h0 : WalkInv ({ l with todo := rest } : LoopSt) (acc ++ [a]) base0 next0 k :=
+        ⟨by simpa [htodo] using h.shape, h.upto, h.mono⟩
+      obtain ⟨k1, hk1, h1⟩ := walkInv_foldl (P.handle r s a ++ P.act r s a) _ _ base0 next0 k h0
+      obtain ⟨k2, hk2, h2⟩ := ih _ _ base0 next0 k1 h1 hs
+      exact ⟨k2, by omega, h2⟩
+
+/-- one step, exactly: under the creation bound the step ends, and the acting agents are the agents live after
+`begin_round`, in list order, followed by `k` consecutive ids from `next_agent_id` on — all ids created in the loop
+when nobody was deleted in it. -/
+theorem stepOut_exact (P : Prog) (sp : Spec) (pop : Pop) (r : Int) (s : Nat) (N c : Nat) (h : PopOK pop)
+    (hb : CreateBound P r s N c) (hf : (stepOut P sp pop r s).entry.agents.length + c * N ≤ sp.fuel) :
+    (stepOut P sp pop r s).stuck = false ∧
+    ∃ k, (stepOut P sp pop r s).acted =
+      (stepOut P sp pop r s).entry.agents ++ List.range' (stepOut P sp pop r s).entry.next k := by
+  have hs := stepOut_terminates P sp pop r s N c h hb hf
+  refine ⟨hs, ?_⟩
+  have hw : WalkInv (⟨((P.beginRound r s).foldl Pop.apply pop).agents, true,
+      (P.beginRound r s).foldl Pop.apply pop⟩ : LoopSt) [] ((P.beginRound r s).foldl Pop.apply pop).agents
+      ((P.beginRound r s).foldl Pop.apply pop).next 0 := ⟨by simp, fun _ => by simp, by simp⟩
+  obtain ⟨k, _, hk, _, _⟩ := agentLoop_exact P r s sp.fuel _ [] _ _ 0 hw (by simpa [stepOut] using hs)
+  exact ⟨k, by simpa [stepOut] using hk⟩
+
+/-- a program whose handlers/acts delete nobody in this step. -/
+def NoDelete (P : Prog) (r : Int) (s : Nat) : Prop :=
+  ∀ a, ∀ x ∈ P.handle r s a ++ P.act r s a, x = Act.create
+
+theorem foldl_loopAct_aliased (acts : List Act) (hd : ∀ x ∈ acts, x = Act.create) : ∀ l : LoopSt,
+    (acts.foldl loopAct l).aliased = l.aliased := by
+  induction acts with
+  | nil => intro l; rfl
+  | cons a rest ih =>
+    intro l
+    have ha := hd a (by simp)
+    subst ha
+    simp only [List.foldl_cons]
+    rw [ih (fun x hx => hd x (by simp [hx]))]
+    rfl
+
+theorem agentLoop_aliased (P : Prog) (r : Int) (s : Nat) (hd : NoDelete P r s) : ∀ (fuel : Nat) (l : LoopSt) (acc : List Nat),
+    (agentLoop P r s fuel l acc).2.1.aliased = l.aliased := by
+  intro fuel
+  induction fuel with
+  | zero => intro l acc; rfl
+  | succ f ih =>
+    intro l acc
+    unfold agentLoop
+    split
+    · rfl
+    · rename_i a rest htodo
+      rw [ih, foldl_loopAct_aliased _ (hd a)]
+
+/-- no deletion in the loop: **every** agent created during the step's loop acts in this very step (and creations
+by those agents as well — nested), i.e. the acting agents are the entry list plus all ids handed out in the loop. -/
+theorem stepOut_exact_nodelete (P : Prog) (sp : Spec) (pop : Pop) (r : Int) (s : Nat) (N c : Nat) (h : PopOK pop)
+    (hb : CreateBound P r s N c) (hd : NoDelete P r s)
+    (hf : (stepOut P sp pop r s).entry.agents.length + c * N ≤ sp.fuel) :
+    ∃ k, (stepOut P sp pop r s).acted =
+        (stepOut P sp pop r s).entry.agents ++ List.range' (stepOut P sp pop r s).entry.next k ∧
+      (agentLoop P r s sp.fuel ⟨(stepOut P sp pop r s).entry.agents, true, (stepOut P sp pop r s).entry⟩ []).2.1.pop.next =
+        (stepOut P sp pop r s).entry.next + k := by
+  have hs := stepOut_terminates P sp pop r s N c h hb hf
+  have hw : WalkInv (⟨((P.beginRound r s).foldl Pop.apply pop).agents, true,
+      (P.beginRound r s).foldl Pop.apply pop⟩ : LoopSt) [] ((P.beginRound r s).foldl Pop.apply pop).agents
+      ((P.beginRound r s).foldl Pop.apply pop).next 0 := ⟨by simp, fun _ => by simp, by simp⟩
+  obtain ⟨k, _, hk, _, hal⟩ := agentLoop_exact P r s sp.fuel _ [] _ _ 0 hw (by simpa [stepOut] using hs)
+  have := hal (by rw [agentLoop_aliased P r s hd])
+  exact ⟨k, by simpa [stepOut] using hk, by simpa [stepOut] using this.symm⟩
+
+/-! ### wave 6 (1b): the only non-terminating case
+
+A program in which *every* agent creates an agent when it acts (and nobody deletes) never leaves the loop: for
+every fuel the model reports `stuck` — Python's `for agent in model.agents` keeps finding a new last element.  By
+`agentLoop_terminates` this cannot happen under any `CreateBound`. -/
+
+theorem agentLoop_diverges (P : Prog) (r : Int) (s : Nat) (hall : ∀ a, P.handle r s a = [] ∧ P.act r s a = [Act.create]) :
+    ∀ (fuel : Nat) (l : LoopSt) (acc : List Nat), l.aliased = true → l.todo ≠ [] →
+      (agentLoop P r s fuel l acc).2.2 = true := by
+  intro fuel
+  induction fuel with
+  | zero => intro l acc _ ht; simp [agentLoop, ht]
+  | succ f ih =>
+    intro l acc hal ht
+    unfold agentLoop
+    split
+    · rename_i htodo; exact absurd htodo ht
+    · rename_i a rest htodo
+      obtain ⟨h1, h2⟩ := hall a
+      apply ih
+      · simp [h1, h2, loopAct, hal]
+      · simp [h1, h2, loopAct, hal]
+
+/-- if a step's loop is stuck for every fuel, the program admits no creation bound at all. -/
+theorem stuck_forever_no_bound (P : Prog) (r : Int) (s : Nat) (l : LoopSt) (acc : List Nat) (hinv : LoopInv l acc)
+    (hst : ∀ fuel, (agentLoop P r s fuel l acc).2.2 = true) : ∀ N c, ¬ CreateBound P r s N c := by
+  intro N c hb
+  have := agentLoop_terminates P r s N c hb (l.todo.length + c * (N - 0)) l acc 0 hinv (fun _ _ => Nat.zero_le _) (Nat.le_refl _)
+  rw [hst] at this
+  cases this
+
+/-! ### wave 6 (1c): negative start / stop — floor numbering of rounds and steps
+
+With `T = round·n + step ∈ ℤ` the absolute step index (`timeNum`), the nested loops are one flat loop over
+`T = start·n … (stop+1)·n − 1` decoded with **floor** division: `round = ⌊T / n⌋`, `step = T mod n ≥ 0`.
+Truncating division (`int(T / n)`) gives another round for negative `T` that is no multiple of `n`. -/
+
+/-- floor decoding of an absolute step index. -/
+def decodeT (n : Nat) (T : Int) : Int × Nat := (T / (n : Int), (T % (n : Int)).toNat)
+
+theorem decode_timeNum (n : Nat) (hn : 0 < n) (r : Int) (s : Nat) (hs : s < n) : decodeT n (timeNum n (r, s)) = (r, s) := by
+  have hn' : (n : Int) ≠ 0 := by omega
+  simp only [decodeT, timeNum]
+  have h1 : (r * (n : Int) + (s : Int)) / (n : Int) = r := by
+    rw [Int.add_comm, Int.add_mul_ediv_right _ _ hn']
+    have : (s : Int) / (n : Int) = 0 := Int.ediv_eq_zero_of_lt (by omega) (by omega)
+    omega
+  have h2 : (r * (n : Int) + (s : Int)) % (n : Int) = s := by
+    rw [Int.add_comm, Int.add_mul_emod_self_right]
+    exact Int.emod_eq_of_lt (by omega) (by omega)
+  rw [h1, h2]; simp
+
+/-- every grid position, also for negative rounds, is the floor decoding of its time index. -/
+theorem grid_floor (sp : Spec) (p : Int × Nat) (hp : p ∈ grid sp) : decodeT sp.n (timeNum sp.n p) = p := by
+  obtain ⟨r, s⟩ := p
+  have := (grid_mem sp r s).mp hp
+  exact decode_timeNum sp.n (by omega) r s this.2.2
+
+theorem block_eq (n : Nat) (hn : 0 < n) (start : Int) (m : Nat) :
+    (List.range n).map (fun s => (start + (m : Int), s)) =
+      (List.range n).map (fun j => decodeT n (start * n + ((m * n + j : Nat) : Int))) := by
+  apply List.map_congr_left
+  intro j hj
+  have hj' : j < n := List.mem_range.mp hj
+  have : start * (n : Int) + ((m * n + j : Nat) : Int) = timeNum n (start + (m : Int), j) := by
+    simp only [timeNum]; push_cast; ring
+  rw [this, decode_timeNum n hn _ _ hj']
+
+/-- the nested loops of `run` = ONE flat loop over the absolute step indices `start·n + k`, `k < rounds·n`, decoded by
+floor division — for every integer start (negative included). -/
+theorem grid_flat (sp : Spec) (hn : 0 < sp.n) :
+    grid sp = (List.range ((sp.stop + 1 - sp.start).toNat * sp.n)).map
+      (fun (k : Nat) => decodeT sp.n (sp.start * sp.n + ((k : Nat) : Int))) := by
+  simp only [grid, rounds]
+  generalize (sp.stop + 1 - sp.start).toNat = m
+  induction m with
+  | zero => simp
+  | succ m ih =>
+    rw [List.range_succ, List.map_append, List.flatMap_append, ih]
+    have hmul : (m + 1) * sp.n = m * sp.n + sp.n := by ring
+    rw [hmul, List.range_add, List.map_append]
+    congr 1
+    simp only [List.map_cons, List.map_nil, List.flatMap_cons, List.flatMap_nil, List.append_nil, List.map_map]
+    have := block_eq sp.n hn sp.start m
+    simpa [Function.comp_def] using this
+
+/-- witness for truncating division: with dt = 0.5 the step of time index −1 (round −1, step 1) is decoded by
+`int(T / n)` as round 0 — a flat loop that truncates runs `run_specs(-1, …, .5)` with wrong round numbers. -/
+theorem trunc_decode_witness : Int.tdiv (timeNum 2 (-1, 1)) 2 ≠ -1 ∧ (timeNum 2 (-1, 1)) / 2 = -1 ∧
+    decodeT 2 (timeNum 2 (-1, 1)) = (-1, 1) := by decide
+
 /-! ### the property -/
 
 /-- whole-run clauses. -/
@@ -978,12 +1207,22 @@ structure TermClauses (c : Cfg) (P : Prog) (sp : Spec) (pop0 : Pop) : Prop where
     ∃ extra, (stepOut P sp pop r s).acted = (stepOut P sp pop r s).entry.agents ++ extra ∧
       (∀ x ∈ extra, (stepOut P sp pop r s).entry.next ≤ x) ∧ (stepOut P sp pop r s).acted.Pairwise (· < ·)
   run : ∀ N cb, (∀ r s, CreateBound P r s N cb) → FuelOK P sp N cb pop0 (grid sp) → (run c P sp pop0).stuck = false
+  /-- wave 6: exactly the live list, then consecutive new ids -/
+  visit : ∀ pop r s N cb, PopOK pop → CreateBound P r s N cb →
+    (stepOut P sp pop r s).entry.agents.length + cb * N ≤ sp.fuel →
+    ∃ k, (stepOut P sp pop r s).acted =
+      (stepOut P sp pop r s).entry.agents ++ List.range' (stepOut P sp pop r s).entry.next k
+  /-- wave 6: the grid is the flat loop over absolute step indices with floor decoding, for every integer start -/
+  flat : 0 < sp.n → grid sp = (List.range ((sp.stop + 1 - sp.start).toNat * sp.n)).map
+      (fun (k : Nat) => decodeT sp.n (sp.start * sp.n + ((k : Nat) : Int)))
 
 theorem termClauses (c : Cfg) (P : Prog) (sp : Spec) (pop0 : Pop) (h : Safe c sp) (hp : PopOK pop0) :
     TermClauses c P sp pop0 :=
   ⟨fun pop r s N cb hpop hb hf => ⟨stepOut_terminates P sp pop r s N cb hpop hb hf,
       stepShape_bounded P sp pop r s N cb hpop hb hf⟩,
-   fun N cb hb hf => run_terminates c P sp pop0 h hp N cb hb hf⟩
+   fun N cb hb hf => run_terminates c P sp pop0 h hp N cb hb hf,
+   fun pop r s N cb hpop hb hf => (stepOut_exact P sp pop r s N cb hpop hb hf).2,
+   fun hn => grid_flat sp hn⟩
 
 /-- The full property for configuration `c`: for every program, all integer start/stop, every
 `n = 1/dt ≥ 1`, both settings of the collection switch, every well-formed initial population. -/
@@ -1203,6 +1442,14 @@ example : Rounding 53 (-1074) := ⟨id, fun _ _ => rfl⟩
 #print axioms stepShape
 #print axioms grid_increasing
 #print axioms foldl_loopAct_frozen
+#print axioms agentLoop_exact
+#print axioms stepOut_exact
+#print axioms stepOut_exact_nodelete
+#print axioms agentLoop_diverges
+#print axioms stuck_forever_no_bound
+#print axioms grid_flat
+#print axioms grid_floor
+#print axioms trunc_decode_witness
 #print axioms C12_history_of_good
 #print axioms C12_history_witness
 #print axioms callOn_fresh
